@@ -245,6 +245,9 @@ class Sim:
         except BaseException as e:  # noqa: BLE001 - a task may raise anything
             job.exc = e
             job.result = None
+            from .loop import quiesce_zarr_loop
+
+            quiesce_zarr_loop()  # sibling chunk operations of the failed array call
         finally:
             for st in self.stores:
                 st.sh.current_job = None
